@@ -176,6 +176,16 @@ CLAIMED["C17"] = dict(
     technique="who-may-read classification of os.environ uses, CFG branch-table and handler swallow-path analysis",
     design="3/C17")
 
+CLAIMED["C07"] = dict(
+    text="Decides structural necessary conditions of the store/reload cycle: instance() emits every required top-level "
+         "schema field and the pretty-printer preserves unknown keys; the stored form is the primitive, unfilled "
+         "unreplicated description; $import components and the selected platform's override are kept; iteration 0 is "
+         "not re-created for instances while the document is still registered; every new iteration is persisted after "
+         "its components were added; writer/generator/loader agree on file names; user variables are patched in before "
+         "the copy that is stored is taken. Equality of resolved configurations after a reload is not decided.",
+    technique="writer/schema key-set agreement, CFG edge-dominance and statement-order (must-pass-through) checks",
+    design="3/C07")
+
 NOT_APPLICABLE = {
     "C20": "arithmetic over floating-point stage weights (sums, int(w*1000) truncation, fallback split) for every "
            "stage count: no structural clause is a necessary condition; needs numeric exploration or a solver, i.e. "
